@@ -204,6 +204,8 @@ def write_evidence(pid, ctx, spec, results, known_hits, violations, inconclusive
             "outside_claim": spec.get("not_decided", []),
             "generator_problems": spec.get("problems", []),
             "skeleton_space": spec.get("skeleton_space", {}),
+            "slowest_jobs": [{"job": r.key(), "symex_s": round(r.symex_s, 1), "solve_s": round(r.solve_s, 1), "budget_s": r.harness.timeout or _budget(ctx)}
+                             for r in sorted(results, key=lambda r: -(r.symex_s + r.solve_s))[:5]],
             "solver_time_s": round(sum(r.solve_s for r in results), 2),
             "symex_time_s": round(sum(r.symex_s for r in results), 2),
             "codegen_time_s": round(codegen_s, 1),
